@@ -130,7 +130,7 @@ def generate(rng, tier, index):
                     rng, g, rng.randint(1, budget_hi), witness[s] if use_witness[s] else None, allow_lit=rng.random() < 0.05
                 )
                 cs.append(c)
-            ops.append({"s": s, "op": "ensure", "cs": cs, "nest": rng.randint(0, 5)})
+            ops.append({"s": s, "op": "ensure", "cs": cs, "nest": rng.randint(0, 7)})
         elif k == "find_answer":
             ops.append({"s": s, "op": "find_answer"})
             solved[s] = True
@@ -265,6 +265,13 @@ def _nest(cs, nest):
         return ((c for c in cs),)
     if nest == 5:
         return (tuple((c,) for c in cs),)
+    if nest == 6 and len(cs) >= 1:
+        # one-shot iterators NESTED inside a list: a generator per "row"
+        k = max(1, len(cs) // 2)
+        return ([(c for c in cs[:k]), (c for c in cs[k:])],)
+    if nest == 7 and len(cs) >= 1:
+        # a map object inside a tuple next to a plain constraint
+        return (cs[0], (map(lambda c: c, cs[1:]),))
     if len(cs) >= 2:
         return ([cs[0]], [[cs[1:]]])
     return ([[cs]],)
